@@ -452,6 +452,9 @@ func c01(env *Env, rep *Report) {
 			}
 		}
 	}
+	if gwBin() != "" && env.Shard == 0 {
+		bindCore(rep, "C01")
+	}
 	rep.add("states", int64(len(states)))
 }
 
